@@ -1,14 +1,495 @@
 import Model.Util
 /-
-  Model/VecEnv.lean — (stub) executable model; see DESIGN.md.  Core Lean only.
+  Model/VecEnv.lean — executable model of `agilerl.vector.pz_async_vec_env.AsyncPettingZooVecEnv`
+  (worker step with auto-reset, shared-memory slices, parent read), of the action transposition in
+  `agilerl.vector.pz_vec_env.PettingZooVecEnv.step`, and of
+  `agilerl.wrappers.pettingzoo_wrappers.PettingZooAutoResetParallelWrapper.step`.
+
+  What is modelled
+  * shared memory: one flat buffer per (agent, key); worker `i` owns `[i*size, (i+1)*size)` of each
+    (`write_to_shared_memory`); the parent reads `reshape(num_envs, *shape)` (`Observations.__getitem__`).
+    Reshaping *inside* a row is numpy's row-major inverse of `flatten()` and is not modelled: an
+    observation member is its flat chunk.
+  * a sub-environment is an arbitrary deterministic pair `reset/step`; agents may be absent from the
+    dicts `step` returns (`none`); `process_transition` fills `get_placeholder_value`.
+  * worker step = step, decide "every agent terminated or truncated", reset if so, choose what is
+    written.  `Variant.repaired` returns the first observation (and info) of the new episode,
+    `Variant.original` is the code before the repair (the transition tuple was captured before the
+    reset): kept for the witness that it hides the first observation.
+  * real process scheduling is modelled by `MicroOp`s (one slice write each) applied in any order.
+  Core Lean only.
 -/
+namespace VecEnv
+
+/-! ## 1. shared memory -/
+
+/-- `np.copyto(dest[start : start + len xs], xs)`: positions outside the slice keep their value -/
+def writeSlice {α} (buf : List α) (start : Nat) (xs : List α) : List α :=
+  buf.mapIdx (fun k v => if start ≤ k then (xs[k - start]?).getD v else v)
+
+/-- row `i` of `buf.reshape(num_envs, size)` -/
+def readRow {α} (buf : List α) (size i : Nat) : List α := (buf.drop (i * size)).take size
+
+/-- `shared_memory[agent][key]` : one flat buffer per (agent, key) -/
+abbrev Mem (α : Type) := List (List (List α))
+
+def Mem.buf {α} (m : Mem α) (a k : Nat) : List α := ((m[a]?.getD [])[k]?).getD []
+
+/-- declared flat size of member `k` of agent `a`'s observation space (`int(np.prod(subspace.shape))`) -/
+def sizeAt (sizes : List (List Nat)) (a k : Nat) : Nat := ((sizes[a]?.getD [])[k]?).getD 0
+
+def Mem.alloc {α} (z : α) (sizes : List (List Nat)) (n : Nat) : Mem α :=
+  sizes.map (fun ks => ks.map (fun sz => List.replicate (n * sz) z))
+
+/-- one slice write of one worker: `chunk` goes to slice `env` of buffer (agent, key) -/
+structure MicroOp (α : Type) where
+  agent : Nat
+  key : Nat
+  env : Nat
+  size : Nat
+  chunk : List α
+deriving Repr, DecidableEq
+
+def applyOp {α} (m : Mem α) (op : MicroOp α) : Mem α :=
+  m.mapIdx (fun a row =>
+    if a = op.agent then
+      row.mapIdx (fun k buf => if k = op.key then writeSlice buf (op.env * op.size) op.chunk else buf)
+    else row)
+
+/-- `write_to_shared_memory(index = i, observation)` as its list of slice writes;
+    `obs[a][k]` is the flat chunk of member `k` of agent `a` -/
+def envOps {α} (sizes : List (List Nat)) (i : Nat) (obs : List (List (List α))) : List (MicroOp α) :=
+  obs.zipIdx.flatMap (fun p => p.1.zipIdx.map (fun q => ⟨p.2, q.2, i, sizeAt sizes p.2 q.2, q.1⟩))
+
+/-- the writes of all workers, in worker order (any other order gives the same memory:
+    `C12_schedule_independent`) -/
+def allOps {α} (sizes : List (List Nat)) (obsAll : List (List (List (List α)))) : List (MicroOp α) :=
+  obsAll.zipIdx.flatMap (fun p => envOps sizes p.2 p.1)
+
+def writeAll {α} (sizes : List (List Nat)) (m : Mem α) (obsAll : List (List (List (List α)))) : Mem α :=
+  (allOps sizes obsAll).foldl applyOp m
+
+/-- what the parent hands out: `[agent][key][env]` rows (`Observations.__getitem__`) -/
+def parentObs {α} (m : Mem α) (sizes : List (List Nat)) (n : Nat) : List (List (List (List α))) :=
+  sizes.mapIdx (fun a ks => ks.mapIdx (fun k sz => (List.range n).map (fun i => readRow (m.buf a k) sz i)))
+
+/-! ## 2. sub-environment, placeholders, worker step -/
+
+structure AgentOut (α R I : Type) where
+  obs : List (List α)        -- one flat chunk per member of the agent's observation space
+  rew : R
+  term : Bool
+  trunc : Bool
+  info : I
+deriving Repr, DecidableEq
+
+/-- a deterministic PettingZoo `ParallelEnv`: `reset(seed)` returns (observation, info) per agent,
+    `step(actions)` returns one entry per agent, `none` = the agent is absent from the dicts -/
+structure Env (S A α R I : Type) where
+  reset : S → Option Nat → S × List (List (List α) × I)
+  step : S → List A → S × List (Option (AgentOut α R I))
+
+/-- `get_placeholder_value` -/
+structure Placeholder (α R I : Type) where
+  obsVal : α
+  rew : R
+  info : I
+
+variable {S A α R I : Type}
+
+def phObs (P : Placeholder α R I) (ks : List Nat) : List (List α) :=
+  ks.map (fun n => List.replicate n P.obsVal)
+
+def phOut (P : Placeholder α R I) (ks : List Nat) : AgentOut α R I :=
+  { obs := phObs P ks, rew := P.rew, term := true, trunc := false, info := P.info }
+
+def fillAt (P : Placeholder α R I) (ks : List Nat) : Option (Option (AgentOut α R I)) → AgentOut α R I
+  | some (some o) => o
+  | _ => phOut P ks
+
+/-- `process_transition` on a step result: one entry per agent of `agents`, placeholders for the absent -/
+def fill (P : Placeholder α R I) (sizes : List (List Nat)) (out : List (Option (AgentOut α R I))) :
+    List (AgentOut α R I) :=
+  sizes.mapIdx (fun a ks => fillAt P ks out[a]?)
+
+def fillResetAt (P : Placeholder α R I) (ks : List Nat) : Option (List (List α) × I) → List (List α) × I
+  | some x => x
+  | none => (phObs P ks, P.info)
+
+/-- `process_transition` on a reset result -/
+def fillReset (P : Placeholder α R I) (sizes : List (List Nat)) (r : List (List (List α) × I)) :
+    List (List (List α) × I) :=
+  sizes.mapIdx (fun a ks => fillResetAt P ks r[a]?)
+
+/-- every agent terminated or truncated -/
+def allDone (outs : List (AgentOut α R I)) : Bool := outs.all (fun o => o.term || o.trunc)
+
+def showResetAt (o : AgentOut α R I) : Option (List (List α) × I) → AgentOut α R I
+  | some x => { o with obs := x.1, info := x.2 }
+  | none => o
+
+/-- observation and info of the new episode, reward / termination / truncation of the finished step -/
+def showReset (outs : List (AgentOut α R I)) (r : List (List (List α) × I)) : List (AgentOut α R I) :=
+  outs.mapIdx (fun a o => showResetAt o r[a]?)
+
+/-- SPECIFICATION: one sub-environment stepped alone under the auto-reset rule -/
+def refStep (P : Placeholder α R I) (sizes : List (List Nat)) (E : Env S A α R I) (s : S) (acts : List A) :
+    S × List (AgentOut α R I) :=
+  let r := E.step s acts
+  let outs := fill P sizes r.2
+  if allDone outs then
+    let q := E.reset r.1 none
+    (q.1, showReset outs (fillReset P sizes q.2))
+  else (r.1, outs)
+
+inductive Variant | repaired | original
+deriving Repr, DecidableEq
+
+/-- `_async_worker`, command "step": new sub-env state and what is written / sent -/
+def workerStep (v : Variant) (P : Placeholder α R I) (sizes : List (List Nat)) (E : Env S A α R I)
+    (s : S) (acts : List A) : S × List (AgentOut α R I) :=
+  let r := E.step s acts
+  let outs := fill P sizes r.2
+  if allDone outs then
+    let q := E.reset r.1 none
+    (q.1, match v with
+          | .repaired => showReset outs (fillReset P sizes q.2)
+          | .original => outs)            -- transition tuple captured before the reset
+  else (r.1, outs)
+
+/-! ## 3. parent: action transposition, gathering replies, step / reset of the vector env -/
+
+/-- the actions of sub-environment `i`: `[actions[agent][i] for agent in agents]` -/
+def col (dA : A) (acts : List (List A)) (i : Nat) : List A := acts.map (fun row => row.getD i dA)
+
+/-- `PettingZooVecEnv.step`: dict agent → array over envs ↦ list over envs of per-agent lists -/
+def transposeActs (dA : A) (n : Nat) (acts : List (List A)) : List (List A) :=
+  (List.range n).map (col dA acts)
+
+/-- `rewards[agent].append(env_step_return[0][agent])` for every pipe in index order -/
+def gather {β γ} (f : β → γ) (nA : Nat) (replies : List (List β)) : List (List γ) :=
+  (List.range nA).map (fun a => replies.filterMap (fun r => r[a]?.map f))
+
+structure Batch (α R I : Type) where
+  obs : List (List (List (List α)))      -- [agent][key][env] rows
+  rew : List (List R)                    -- [agent][env]
+  term : List (List Bool)
+  trunc : List (List Bool)
+  info : List (List I)
+deriving Repr
+
+structure ResetBatch (α I : Type) where
+  obs : List (List (List (List α)))
+  info : List (List I)
+deriving Repr
+
+structure Sys (S α : Type) where
+  envs : List S          -- worker-local sub-environment states
+  mem : Mem α
+deriving Repr
+
+def vecStep (v : Variant) (P : Placeholder α R I) (sizes : List (List Nat)) (E : Nat → Env S A α R I)
+    (dA : A) (sys : Sys S α) (acts : List (List A)) : Sys S α × Batch α R I :=
+  let n := sys.envs.length
+  let perEnv := transposeActs dA n acts
+  let results := sys.envs.mapIdx (fun i s => workerStep v P sizes (E i) s (perEnv.getD i []))
+  let replies := results.map (·.2)
+  let mem' := writeAll sizes sys.mem (replies.map (fun r => r.map (·.obs)))
+  (⟨results.map (·.1), mem'⟩,
+   { obs := parentObs mem' sizes n,
+     rew := gather (·.rew) sizes.length replies,
+     term := gather (·.term) sizes.length replies,
+     trunc := gather (·.trunc) sizes.length replies,
+     info := gather (·.info) sizes.length replies })
+
+def vecReset (P : Placeholder α R I) (sizes : List (List Nat)) (E : Nat → Env S A α R I)
+    (sys : Sys S α) (seed : Option Nat) : Sys S α × ResetBatch α I :=
+  let n := sys.envs.length
+  let results := sys.envs.mapIdx (fun i s =>
+    let q := (E i).reset s (seed.map (· + i))
+    (q.1, fillReset P sizes q.2))
+  let replies := results.map (·.2)
+  let mem' := writeAll sizes sys.mem (replies.map (fun r => r.map (·.1)))
+  (⟨results.map (·.1), mem'⟩,
+   { obs := parentObs mem' sizes n, info := gather (·.2) sizes.length replies })
+
+/-- position `i` of the returned fields -/
+def Batch.obsAt (B : Batch α R I) (a k i : Nat) : Option (List α) := (B.obs[a]?.bind (·[k]?)).bind (·[i]?)
+def Batch.rewAt (B : Batch α R I) (a i : Nat) : Option R := B.rew[a]?.bind (·[i]?)
+def Batch.termAt (B : Batch α R I) (a i : Nat) : Option Bool := B.term[a]?.bind (·[i]?)
+def Batch.truncAt (B : Batch α R I) (a i : Nat) : Option Bool := B.trunc[a]?.bind (·[i]?)
+def Batch.infoAt (B : Batch α R I) (a i : Nat) : Option I := B.info[a]?.bind (·[i]?)
+def ResetBatch.obsAt (B : ResetBatch α I) (a k i : Nat) : Option (List α) := (B.obs[a]?.bind (·[k]?)).bind (·[i]?)
+def ResetBatch.infoAt (B : ResetBatch α I) (a i : Nat) : Option I := B.info[a]?.bind (·[i]?)
+
+/-- the vector env driven by a whole action sequence -/
+def vecRun (v : Variant) (P : Placeholder α R I) (sizes : List (List Nat)) (E : Nat → Env S A α R I)
+    (dA : A) : Sys S α → List (List (List A)) → List (Batch α R I)
+  | _, [] => []
+  | sys, acts :: rest =>
+    let r := vecStep v P sizes E dA sys acts
+    r.2 :: vecRun v P sizes E dA r.1 rest
+
+/-- SPECIFICATION: one sub-environment alone, driven by its own action sequence -/
+def refRun (P : Placeholder α R I) (sizes : List (List Nat)) (E : Env S A α R I) :
+    S → List (List A) → List (List (AgentOut α R I))
+  | _, [] => []
+  | s, acts :: rest =>
+    let r := refStep P sizes E s acts
+    r.2 :: refRun P sizes E r.1 rest
+
+/-! ## 4. the single-environment auto-reset wrapper -/
+
+/-- every agent present in the dicts terminated or truncated -/
+def presentDone (out : List (Option (AgentOut α R I))) : Bool :=
+  out.all (fun | some o => o.term || o.trunc | none => true)
+
+/-- `np.all(list(terminations.values()) or list(truncations.values()))`: a non-empty list is truthy,
+    so only the terminations are looked at (truncations only when there is no agent at all) -/
+def origWrapperCond (out : List (Option (AgentOut α R I))) : Bool :=
+  out.all (fun | some o => o.term | none => true)
+
+structure WrapOut (α R I : Type) where
+  obsInfo : List (Option (List (List α) × I))      -- obs / info dicts
+  rest : List (Option (R × Bool × Bool))           -- reward / termination / truncation dicts
+deriving Repr, DecidableEq
+
+def wrapperStep (v : Variant) (E : Env S A α R I) (s : S) (acts : List A) : S × WrapOut α R I :=
+  let r := E.step s acts
+  let rest := r.2.map (Option.map (fun o => (o.rew, o.term, o.trunc)))
+  let cond := match v with | .repaired => presentDone r.2 | .original => origWrapperCond r.2
+  if cond then
+    let q := E.reset r.1 none
+    (q.1, ⟨q.2.map some, rest⟩)
+  else (r.1, ⟨r.2.map (Option.map (fun o => (o.obs, o.info))), rest⟩)
+
+/-! ## 5. the scripted counting environment of `harness/envs.py` -/
+
+inductive Ending | term | trunc | mixed | both
+deriving Repr, DecidableEq
+
+structure Script where
+  id : Nat := 0
+  lens : List Nat := [1]
+  kinds : List Ending := [.term]
+  leave : List Nat := []
+  sizes : List (List Nat) := []
+deriving Repr
+
+structure EState where
+  ep : Nat := 0
+  t : Nat := 0
+  salt : Nat := 0
+deriving Repr, DecidableEq
+
+inductive Info
+  | none
+  | step (e p t a : Nat) (acode : Rat)
+  | reset (e p a : Nat) (seed : Int)
+deriving Repr, DecidableEq
+
+def chunkVals (e p t a k z n : Nat) : List Int :=
+  (List.range n).map (fun j => ((([e, p, t, a, k, z].getD (j % 6) 0 + j / 6) % 100 : Nat) : Int))
+
+def Script.lenOf (c : Script) (ep : Nat) : Nat := max 1 (c.lens.getD ((ep - 1) % c.lens.length) 1)
+def Script.kindOf (c : Script) (ep : Nat) : Ending := c.kinds.getD ((ep - 1) % c.kinds.length) .term
+
+def Ending.flags : Ending → Nat → Bool × Bool
+  | .term, _ => (true, false)
+  | .trunc, _ => (false, true)
+  | .both, _ => (true, true)
+  | .mixed, a => if a % 2 = 0 then (true, false) else (false, true)
+
+def Script.obsOf (c : Script) (s : EState) (a : Nat) : List (List Int) :=
+  (c.sizes.getD a []).mapIdx (fun k n => chunkVals c.id s.ep s.t a k s.salt n)
+
+def scripted (c : Script) : Env EState Rat Int Rat Info where
+  reset := fun s seed =>
+    let s' : EState := { ep := s.ep + 1, t := 0, salt := match seed with | some x => x % 50 | none => s.salt }
+    (s', (List.range c.sizes.length).map (fun a =>
+      (c.obsOf s' a, Info.reset c.id s'.ep a (match seed with | some x => (x : Int) | none => -1))))
+  step := fun s acts =>
+    let s' : EState := { s with t := s.t + 1 }
+    let L := c.lenOf s.ep
+    let kind := c.kindOf s.ep
+    (s', (List.range c.sizes.length).map (fun a =>
+      let k := c.leave.getD a 0
+      let leaves := decide (0 < k) && decide (k < L)
+      if leaves && decide (s'.t > k) then none
+      else
+        let fin := decide (s'.t ≥ L) || (leaves && decide (s'.t = k))
+        let fl := if fin then kind.flags a else (false, false)
+        let code := acts.getD a 0
+        some { obs := c.obsOf s' a,
+               rew := code + 100 * (s'.t : Rat) + 10000 * (a : Rat) + 100000 * (c.id : Rat),
+               term := fl.1, trunc := fl.2,
+               info := Info.step c.id s'.ep s'.t a code }))
+
+def scriptedPh : Placeholder Int Rat Info := { obsVal := -1, rew := 0, info := .none }
+
+end VecEnv
+
+/-! ## 6. line protocol -/
 namespace VecEnv
 open Util
 
 structure IOState where
-  dummy : Nat := 0
+  variant : Variant := .repaired
+  nEnvs : Nat := 0
+  sizes : List (List Nat) := []
+  scripts : List Script := []
+  sys : Sys EState Int := ⟨[], []⟩
+  ready : Bool := false
+  wscript : Script := {}
+  wstate : EState := {}
+  wready : Bool := false
+
+def parseVariant? : String → Option Variant
+  | "repaired" => some .repaired
+  | "original" => some .original
+  | _ => none
+
+def parseEnding? : String → Option Ending
+  | "term" => some .term
+  | "trunc" => some .trunc
+  | "mixed" => some .mixed
+  | "both" => some .both
+  | _ => none
+
+def parseSeed? : String → Option (Option Nat)
+  | "none" => some none
+  | w => (parseNat? w).map some
+
+/-- `<id> <nl> l_1 … l_nl <nk> k_1 … k_nk leave_0 … leave_{A-1}` -/
+def parseScript? (sizes : List (List Nat)) (ws : List String) : Option Script :=
+  match ws with
+  | id :: nl :: rest =>
+    match parseNat? id, parseNat? nl with
+    | some id, some nl =>
+      if nl = 0 ∨ rest.length < nl + 1 then none else
+      match parseNats? (rest.take nl), parseNat? (rest.getD nl "") with
+      | some lens, some nk =>
+        let rest2 := rest.drop (nl + 1)
+        if nk = 0 ∨ rest2.length ≠ nk + sizes.length then none else
+        match allSome ((rest2.take nk).map parseEnding?), parseNats? (rest2.drop nk) with
+        | some kinds, some leave =>
+          if lens.any (· = 0) then none
+          else some { id := id, lens := lens, kinds := kinds, leave := leave, sizes := sizes }
+        | _, _ => none
+      | _, _ => none
+    | _, _ => none
+  | _ => none
+
+/-- canonical text of one observation member: its provenance `e.p.t.a.k.z`, `PH` for the placeholder,
+    `MIXED` when the chunk is not a chunk any scripted environment produces -/
+def showChunk (c : List Int) : String :=
+  if c.isEmpty then "EMPTY"
+  else if c.all (· == -1) then "PH"
+  else
+    let base := (List.range 6).map (fun j => c.getD j (-1))
+    let ok := (List.range c.length).all (fun j =>
+      c.getD j (-2) == (((base.getD (j % 6) 0) + (j / 6 : Nat)) % 100))
+    if ok && c.all (· ≥ 0) then ".".intercalate (base.map toString) else "MIXED"
+
+def showInfo : Info → String
+  | .none => "-"
+  | .step e p t a code => s!"s:{e}.{p}.{t}.{a}:{showRat code}"
+  | .reset e p a seed => s!"r:{e}.{p}.0.{a}:{seed}"
+
+def showOpt {β} (f : β → String) : Option β → String
+  | some x => f x
+  | none => "?"
+
+def showObs (chunks : List (Option (List Int))) : String :=
+  ",".intercalate (chunks.map (showOpt showChunk))
+
+def showStepBatch (sizes : List (List Nat)) (n : Nat) (B : Batch Int Rat Info) : String :=
+  " | ".intercalate ((List.range n).map (fun i =>
+    " ; ".intercalate (sizes.mapIdx (fun a ks =>
+      s!"o={showObs ((List.range ks.length).map (fun k => B.obsAt a k i))} " ++
+      s!"r={showOpt showRat (B.rewAt a i)} t={showOpt showBool (B.termAt a i)} " ++
+      s!"u={showOpt showBool (B.truncAt a i)} n={showOpt showInfo (B.infoAt a i)}"))))
+
+def showResetBatch (sizes : List (List Nat)) (n : Nat) (B : ResetBatch Int Info) : String :=
+  " | ".intercalate ((List.range n).map (fun i =>
+    " ; ".intercalate (sizes.mapIdx (fun a ks =>
+      s!"o={showObs ((List.range ks.length).map (fun k => B.obsAt a k i))} " ++
+      s!"n={showOpt showInfo (B.infoAt a i)}"))))
+
+def showWrap (w : WrapOut Int Rat Info) : String :=
+  " ; ".intercalate ((List.zip w.obsInfo w.rest).map (fun p =>
+    (match p.1 with
+     | some (o, inf) => s!"o={showObs (o.map some)} n={showInfo inf}"
+     | none => "o=- n=-") ++ " " ++
+    (match p.2 with
+     | some (r, t, u) => s!"r={showRat r} t={showBool t} u={showBool u}"
+     | none => "r=- t=- u=-")))
+
+def envOf (s : IOState) (i : Nat) : Env EState Rat Int Rat Info :=
+  scripted (s.scripts.getD i { sizes := s.sizes })
 
 def step (s : IOState) : List String → IOState × String
+  | ["new", n, v] =>
+    match parseNat? n, parseVariant? v with
+    | some n, some v => if n = 0 then (s, "reject") else ({ variant := v, nEnvs := n }, "ok")
+    | _, _ => (s, "bad-op")
+  | "sizes" :: a :: ws =>
+    match parseNat? a, parseNats? ws with
+    | some a, some ks =>
+      if a ≠ s.sizes.length ∨ ks.isEmpty ∨ s.ready ∨ ¬ s.scripts.isEmpty then (s, "bad-op")
+      else ({ s with sizes := s.sizes ++ [ks] }, "ok")
+    | _, _ => (s, "bad-op")
+  | "env" :: i :: ws =>
+    match parseNat? i, parseScript? s.sizes ws with
+    | some i, some c =>
+      if i ≠ s.scripts.length ∨ i ≥ s.nEnvs ∨ s.sizes.isEmpty ∨ s.ready then (s, "bad-op")
+      else ({ s with scripts := s.scripts ++ [c] }, "ok")
+    | _, _ => (s, "bad-op")
+  | ["alloc"] =>
+    if s.scripts.length ≠ s.nEnvs ∨ s.nEnvs = 0 ∨ s.sizes.isEmpty then (s, "bad-op")
+    else ({ s with sys := ⟨List.replicate s.nEnvs {}, Mem.alloc 0 s.sizes s.nEnvs⟩, ready := true }, "ok")
+  | ["reset", seed] =>
+    match parseSeed? seed with
+    | some seed =>
+      if ¬ s.ready then (s, "bad-op") else
+      let r := vecReset scriptedPh s.sizes (envOf s) s.sys seed
+      ({ s with sys := r.1 }, showResetBatch s.sizes s.nEnvs r.2)
+    | none => (s, "bad-op")
+  | "step" :: ws =>
+    match parseRats? ws with
+    | some xs =>
+      if ¬ s.ready then (s, "bad-op")
+      else if xs.length ≠ s.sizes.length * s.nEnvs then (s, "reject")
+      else
+        let acts := chunks s.nEnvs xs            -- agent-major: acts[agent][env]
+        let r := vecStep s.variant scriptedPh s.sizes (envOf s) 0 s.sys acts
+        ({ s with sys := r.1 }, showStepBatch s.sizes s.nEnvs r.2)
+    | none => (s, "bad-op")
+  | ["state"] =>
+    (s, " ".intercalate (s.sys.envs.map (fun e => s!"{e.ep}.{e.t}.{e.salt}")))
+  | "wnew" :: v :: ws =>
+    match parseVariant? v, parseScript? s.sizes ws with
+    | some v, some c =>
+      if s.sizes.isEmpty then (s, "bad-op")
+      else ({ s with variant := v, wscript := c, wstate := {}, wready := true }, "ok")
+    | _, _ => (s, "bad-op")
+  | ["wreset", seed] =>
+    match parseSeed? seed with
+    | some seed =>
+      if ¬ s.wready then (s, "bad-op") else
+      let q := (scripted s.wscript).reset s.wstate seed
+      ({ s with wstate := q.1 }, showWrap ⟨q.2.map some, q.2.map (fun _ => none)⟩)
+    | none => (s, "bad-op")
+  | "wstep" :: ws =>
+    match parseRats? ws with
+    | some xs =>
+      if ¬ s.wready then (s, "bad-op")
+      else if xs.length ≠ s.sizes.length then (s, "reject")
+      else
+        let r := wrapperStep s.variant (scripted s.wscript) s.wstate xs
+        ({ s with wstate := r.1 }, showWrap r.2)
+    | none => (s, "bad-op")
+  | ["wstate"] => (s, s!"{s.wstate.ep}.{s.wstate.t}.{s.wstate.salt}")
   | _ => (s, "bad-op")
 
 end VecEnv
